@@ -34,12 +34,12 @@ def _sections(ctx, platform, ind, layout, w):
     if platform == "ios":
         grp = ["object-group network G1", ind + m1[0] + " 255.255.255.0", ind + "host " + m2[0]]
         acl_a = ["ip access-list extended A1", ind + T.num(ctx.fresh("s1", 1, 4294967295)) + " permit ip object-group G1 any",
-                 ind + "remark note a", ind + "deny tcp host " + a[0] + " any eq 80"]
+                 ind + "remark note a", ind + "deny tcp host " + a[0] + " object-group G1 eq 80"]
         acl_b = ["ip access-list standard B2", ind + "permit " + b[0] + " 0.0.0.255", ind + "deny any log"]
     else:
         grp = ["object-group ip address G1", ind + "10 " + m1[0] + "/24", ind + "20 host " + m2[0]]
         acl_a = ["ip access-list A1", ind + T.num(ctx.fresh("s1", 1, 4294967295)) + " permit ip addrgroup G1 any",
-                 ind + "remark note a", ind + "deny tcp host " + a[0] + " any eq 80"]
+                 ind + "remark note a", ind + "deny tcp host " + a[0] + " addrgroup G1 eq 80"]
         acl_b = ["ip access-list B2", ind + "permit ip " + b[0] + " 0.0.0.255 any", ind + "deny ip any any log"]
     intfs = []
     for k, binds in enumerate(layout):
@@ -103,7 +103,11 @@ def h_config(ctx):
                 ace = o.items[0]
                 cl("A1:sequence", Not_(ace.line.split()[0] == acl_a[1].split()[0]))
                 cl("A1:remark", not (o.items[1].line == "remark note a"))
-                cl("A1:third", Not_(o.items[2].line == "deny tcp host " + quads[0][0] + " any eq 80"))
+                kwg = "object-group" if platform == "ios" else "addrgroup"
+                cl("A1:third", Not_(o.items[2].line == "deny tcp host " + quads[0][0] + " " + kwg + " G1 eq 80"))
+                # the same group referenced a second time (destination of the third entry) carries the same members
+                cl("A1:group-members-second-reference", Xor_(in_nets(x, o.items[2].dstaddr.ipnets()),
+                                                             Or_(addr_pred(x, quads[3][1], 255), V(x) == V(quads[4][1]))))
                 # members of the referenced group, IOS members read as subnet masks
                 mem = Or_(addr_pred(x, quads[3][1], 255), V(x) == V(quads[4][1]))
                 cl("A1:group-members", Xor_(in_nets(x, ace.srcaddr.ipnets()), mem))
